@@ -68,6 +68,34 @@ type blobFactory struct{}
 func (blobFactory) CreateEmpty() interface{} { return &blob{} }
 func (blobFactory) IsInterfaceNil() bool     { return false }
 
+// plain does NOT implement types.SerializedStoredData: such values go through the marshalizer (getBytes / getData fall back to
+// Marshal / Unmarshal). The marshalizer below is the identity on the payload, so the model's byte strings are unchanged.
+type plain struct{ B []byte }
+
+type plainFactory struct{}
+
+func (plainFactory) CreateEmpty() interface{} { return &plain{} }
+func (plainFactory) IsInterfaceNil() bool     { return false }
+
+type payloadMarshaller struct{}
+
+func (payloadMarshaller) Marshal(obj interface{}) ([]byte, error) {
+	p, ok := obj.(*plain)
+	if !ok {
+		return nil, errors.New("payload marshaller: not a *plain")
+	}
+	return append([]byte{}, p.B...), nil
+}
+func (payloadMarshaller) Unmarshal(obj interface{}, buff []byte) error {
+	p, ok := obj.(*plain)
+	if !ok {
+		return errors.New("payload marshaller: not a *plain")
+	}
+	p.B = append([]byte{}, buff...)
+	return nil
+}
+func (payloadMarshaller) IsInterfaceNil() bool { return false }
+
 type noMarshaller struct{ used *bool }
 
 func (m noMarshaller) Marshal(obj interface{}) ([]byte, error) {
@@ -271,6 +299,12 @@ func blobBytes(v interface{}, ok bool) ([]byte, bool) {
 	if !ok {
 		return nil, false
 	}
+	if p, isPlain := v.(*plain); isPlain && p != nil {
+		if p.B == nil {
+			return []byte{}, true
+		}
+		return p.B, true
+	}
 	x, isBlob := v.(*blob)
 	if !isBlob || x == nil {
 		return nil, false
@@ -331,7 +365,21 @@ func (comp) Run(h *core.History, scratch string) *core.Result {
 	mdb := memorydb.New()
 	rec := &recorder{DB: mdb}
 	marshUsed := false
-	ad, err := storageCacherAdapter.NewStorageCacherAdapter(cacher, rec, blobFactory{}, noMarshaller{&marshUsed})
+	// one configuration in five (byte capacity 50) stores values that go through the marshalizer instead of SerializedStoredData
+	usePlain := maxBytes == 50
+	mkval := func(v []byte) interface{} {
+		if usePlain {
+			return &plain{B: v}
+		}
+		return &blob{b: v}
+	}
+	var ad types.Cacher
+	if usePlain {
+		ad, err = storageCacherAdapter.NewStorageCacherAdapter(cacher, rec, plainFactory{}, payloadMarshaller{})
+		res.Hit("values-through-the-marshalizer")
+	} else {
+		ad, err = storageCacherAdapter.NewStorageCacherAdapter(cacher, rec, blobFactory{}, noMarshaller{&marshUsed})
+	}
 	if err != nil {
 		res.Obs = append(res.Obs, "init-rejected")
 		return res
@@ -445,13 +493,13 @@ func (comp) Run(h *core.History, scratch string) *core.Result {
 		case opPut:
 			k, v, sz := a[0].Bytes(), a[1].Bytes(), a[2].I64()
 			_, wasInDB := persisted(string(k))
-			flag := ad.Put(res.CallerKey(k), &blob{b: v}, int(sz))
+			flag := ad.Put(res.CallerKey(k), mkval(v), int(sz))
 			toks = append(toks, core.Lbl(1, core.Bool(flag)))
 			putEffects("Put", i, k, v, sz, flag, wasInDB, memBefore, valBefore)
 		case opHasOrAdd:
 			k, v, sz := a[0].Bytes(), a[1].Bytes(), a[2].I64()
 			_, wasInDB := persisted(string(k))
-			has, added := ad.HasOrAdd(res.CallerKey(k), &blob{b: v}, int(sz))
+			has, added := ad.HasOrAdd(res.CallerKey(k), mkval(v), int(sz))
 			toks = append(toks, core.Lbl(4, core.Bool(has)), core.Lbl(7, core.L(core.Bool(has), core.Bool(added))))
 			// "checks if the value exists": the first flag says whether the key was in one of the tiers the
 			// adapter consults (the memory tier; the persister while it is open)
